@@ -589,6 +589,27 @@ func runC08IfaceTwin(c *CaseCtx, r *rand.Rand) (res CaseResult) {
 		res.violate("C08", "input-already-supplied", fmt.Sprintf("the redefined function declares %v; the caller supplied the %s, only the %s is missing", decl, typeName(X), typeName(I)), det)
 		return res
 	}
+	// the redefined function called as the Go function it is, with a nil
+	// interface value in its declared input: a value was given for every
+	// declared input, so it does not fail for lack of an argument
+	func() {
+		defer func() {
+			if p := recover(); p != nil {
+				res.violate("C06", "panic/redefined-call-"+crashKey(fmt.Sprint(p)), fmt.Sprintf("calling the redefined function directly panicked: %v", p), det)
+			}
+		}()
+		fv := reflect.ValueOf(o.Func.Func())
+		if fv.Kind() == reflect.Func && fv.Type().NumIn() == 1 {
+			outs := fv.Call([]reflect.Value{reflect.New(fv.Type().In(0)).Elem()})
+			res.Evals++
+			if n := len(outs); n > 0 {
+				if e, _ := outs[n-1].Interface().(error); e != nil {
+					res.violate("C08", "redefined-call-fails/nil-interface-input", "the redefined function, called with a nil interface value as its declared input, failed: "+firstLine(e.Error()), det)
+				}
+			}
+			res.obs("direct_calls_with_a_nil_interface_input", 1)
+		}
+	}()
 	for k := 1; k <= tierReps(c.Tier, 6, 12); k++ {
 		// the new value has dynamic type X in half of the calls
 		conc := X
@@ -1349,6 +1370,65 @@ func runC12ConvertTypes(c *CaseCtx, r *rand.Rand) (res CaseResult) {
 	res.obs("concurrent_operations", int64(G*per))
 	if bad > 0 {
 		res.violate("C12", "concurrent-outcome-differs", fmt.Sprintf("%d of %d concurrent Converts returned an outcome no sequential execution of that call returns; first: %s", bad, G*per, first), det)
+	}
+	res.Sample = det
+	return res
+}
+
+// runC01SamePrinting: a parameter of one type and a supplied value of a
+// DIFFERENT type that prints alike (two function-local "unit" types: an
+// int64 and a string). The library identifies types by their printed name in
+// places, so such a call may fail in any way (C06 does not cover types that
+// are not distinctly named) — but it must never EXECUTE a function with a
+// value nobody supplied (a converted or zero value of the parameter's type).
+func runC01SamePrinting(c *CaseCtx, r *rand.Rand) (res CaseResult) {
+	res.NonTrivial = true
+	named := r.Intn(2) == 0
+	res.Key = fmt.Sprintf("types-that-print-alike named=%v", named)
+	res.obs("family.types-that-print-alike", 1)
+	det := map[string]interface{}{"case": res.Key}
+	ta := reflect.TypeOf(sameNamedParamA()).In(0) // kind int64
+	tb := reflect.TypeOf(sameNamedParamB()).In(0) // kind string
+	want, have := ta, tb
+	if r.Intn(2) == 0 {
+		want, have = tb, ta
+	}
+	ran := 0
+	var inT reflect.Type = want
+	if named {
+		inT = reflect.StructOf([]reflect.StructField{
+			{Name: "Struct", Type: structMarkerT, Anonymous: true},
+			{Name: "A", Type: want},
+		})
+	}
+	fn := reflect.MakeFunc(reflect.FuncOf([]reflect.Type{inT}, nil, false), func([]reflect.Value) []reflect.Value { ran++; return nil })
+	f, err := am.NewFunc(fn.Interface())
+	if err != nil {
+		res.Skip = "newfunc"
+		return res
+	}
+	v := reflect.New(have).Elem()
+	if have.Kind() == reflect.String {
+		v.SetString("7")
+	} else {
+		v.SetInt(7)
+	}
+	for k := 0; k < 20; k++ {
+		var arg am.Arg
+		if named {
+			arg = am.Named("a", v.Interface())
+		} else {
+			arg = am.Typed(v.Interface())
+		}
+		func() {
+			defer func() { recover() }()
+			f.Call(arg)
+		}()
+		res.Evals++
+		if ran > 0 {
+			res.violate("C01", "binding/type", fmt.Sprintf("the function with a parameter of type %v (kind %v) was executed although the only supplied value has type %v (kind %v)", want, want.Kind(), have, have.Kind()), det)
+			break
+		}
 	}
 	res.Sample = det
 	return res
